@@ -422,6 +422,11 @@ public:
     galois::runtime::on_each_gen(
         [this](const unsigned, const unsigned) { get().clear(); },
         std::make_tuple());
+    // on_each only runs on the active threads; rows filled while more
+    // threads were active are cleared here
+    for (unsigned i = galois::getActiveThreads(); i < perThrdCont.size(); ++i) {
+      get(i).clear();
+    }
   }
 
   bool empty_all() const {
